@@ -100,6 +100,11 @@ impl R32 {
     #[verifier::external_body]
     pub fn to_string(&self) -> (r: String) ensures r@ == f32_str(val(*self)) { unimplemented!() }
 }
+/// crate::types::fstr, the 3-decimal rendering used for OUTPUT attributes (in scope for the woven bodies so that a change
+/// calling it still translates): a different function from the exact rendering f32_str a variable has to carry
+pub uninterp spec fn fstr_str(x: real) -> Seq<char>;
+#[verifier::external_body]
+pub fn fstr(x: R32) -> (r: String) ensures r@ == fstr_str(val(x)) { unimplemented!() }
 #[verifier::external_body]
 pub fn u32_to_string(x: u32) -> (r: String) ensures r@ == u32_str(x as int) { unimplemented!() }
 
